@@ -46,8 +46,11 @@ impl<'n> TryFromNode<'n> for Field {
         } else {
             node.attribute("minOccurs") == Some("0") || parent_is_optional
         };
-        let parent_is_vec = node.parent().and_then(|n| n.attribute("maxOccurs")) == Some("unbounded");
-        let is_vec = Node::attribute(&node, "maxOccurs") == Some("unbounded") || parent_is_vec;
+        let parent_is_vec = node
+            .parent()
+            .and_then(|n| n.attribute("maxOccurs"))
+            .is_some_and(may_repeat);
+        let is_vec = Node::attribute(&node, "maxOccurs").is_some_and(may_repeat) || parent_is_vec;
         let is_choice = node.parent().is_some_and(|n| n.tag_name().name() == "choice");
 
         // check if this is an any type
@@ -238,6 +241,11 @@ impl Display for RustFieldType {
             }
         }
     }
+}
+
+/// a `maxOccurs` value that allows more than one occurrence: `unbounded` or a number above one
+fn may_repeat(max_occurs: &str) -> bool {
+    max_occurs == "unbounded" || max_occurs.parse::<u64>().is_ok_and(|n| n > 1)
 }
 
 fn split_type(node_type: &str) -> (&str, Option<&str>) {
